@@ -179,6 +179,8 @@ class Sym:
                 lf, i, rest = pi
                 return ("param", lf.path, i, tuple(rest))
             return ("arg", o.body.path, o.info, tuple(o.path))
+        if k == "field":
+            return ("field", o.info[0], o.info[1], tuple(o.path))
         if k == "const":
             t = self._const(o.info)
             if o.path:
@@ -284,6 +286,8 @@ def term_str(t, depth=0):
         return "param#%d(%s)%s" % (t[2], t[1].rsplit("::", 1)[-1], path_str(t[3]))
     if k == "arg":
         return "arg(_%s%s)" % (t[2], path_str(t[3]))
+    if k == "field":
+        return "%s.%s%s" % (t[1].split("::", 1)[-1] if t[1].count("::") else t[1], t[2], path_str(t[3]))
     if k == "const":
         return repr(t[1])
     if k == "fn":
